@@ -142,6 +142,23 @@ def _unmatched_samples(repo):
         ("ffcx.codegeneration.optimizer", "check_dependency"): run(
             "ffcx.codegeneration.optimizer", "check_dependency", lambda it: [it.construct("Comment", ["x"], {}), it.construct("Symbol", ["i", "DataType.INT"], {})]),
     }
+    # dispatchers of the LNodes layer and small maps: an input of a kind none of their cases names
+    LN = "ffcx.codegeneration.lnodes"
+    S[(LN, "merge_dtypes")] = run(LN, "merge_dtypes", [["DataType.UNKNOWN_KIND"]])
+    S[(LN, "as_lexpr")] = run(LN, "as_lexpr", ["a string is not an expression"])
+    S[(LN, "as_statement")] = run(LN, "as_statement", ["a string is not a statement"])
+    S[(LN, "ufl_to_lnodes")] = run(LN, "ufl_to_lnodes", lambda it: [Node("UnknownUflOperator", name="op")], lambda it: it.overrides.__setitem__("_ufl_call_lookup", {}))
+    S[("ffcx.ir.representation", "basix_cell_from_string")] = run("ffcx.ir.representation", "basix_cell_from_string", ["dodecahedron"])
+    S[("ffcx.codegeneration.utils", "dtype_to_scalar_dtype")] = run("ffcx.codegeneration.utils", "dtype_to_scalar_dtype", ["bool"])
+    S[("ffcx.analysis", "_has_custom_integrals")] = run("ffcx.analysis", "_has_custom_integrals", ["neither an integral nor a form nor a list"], ufl_measures)
+    S[("ffcx.codegeneration.common", "tensor_sizes")] = run("ffcx.codegeneration.common", "tensor_sizes", lambda it: [Node("NeitherIntegralNorExpressionIR")])
+
+    def dep_graph(it):
+        tr = Node("UniqueTableReferenceT", ttype="no_such_table_type", name="FE0")
+        nodes = {0: {"expression": Node("UflExpr", name="v"), "mt": Node("ModifiedTerminal", name="mt"), "tr": tr, "target": [(0,)]}}
+        F = Node("ExpressionGraph", nodes=nodes, out_edges={0: []}, in_edges={0: []})
+        return [F, {}]
+    S[("ffcx.ir.integral", "analyse_dependencies")] = run("ffcx.ir.integral", "analyse_dependencies", dep_graph)
     return S
 
 
@@ -308,20 +325,28 @@ def closed_domains(repo, res):
             res.fail(kk, f"integral type {k} maps to unknown entity type {v!r}", rep.line(table))
         elif want.get(k) != v:
             res.fail(kk, f"integral type {k} is given entity type {v!r} (tables would be tabulated on the wrong sub-entity); expected {want.get(k)!r}", rep.line(table))
-    # symbols.entity handles every entity type
+    # symbols.entity handles every entity type: interpreted for each declared type (object built by its constructor) - the result must be
+    # an index expression, never None
+    from ..absint import Node as _Nd, Raised as _Rsd
+    from .genkernel import _world as _gk_world
+
     sym = repo.mod("ffcx.codegeneration.symbols")
     ef = sym.func("FFCXBackendSymbols.entity")
     res.functions.add(ef.key)
-    handled = set()
-    for n in walk_no_nested(ef.node):
-        if isinstance(n, ast.Compare) and isinstance(n.ops[0], ast.Eq) and isinstance(n.comparators[0], ast.Constant) \
-                and ast.unparse(n.left) == "entity_type":
-            handled.add(n.comparators[0].value)
     for e in entity_types:
         key = f"{ef.key}:handles:{e}"
         res.ob(key)
-        if e not in handled:
-            res.fail(key, f"symbols.entity has no case for entity type {e!r}: the entity index silently becomes None", sym.line(ef.node))
+        for restr in (None, "+", "-"):
+            itw = _gk_world(repo)
+            try:
+                symb = itw.overrides["FFCXBackendSymbols"].fn({}, {}, {})
+                got = itw.call_f(ef, [symb, e, restr])
+            except _Rsd as ex:
+                res.fail(key, f"symbols.entity({e!r}, {restr!r}) raises ({ex.what})", sym.line(ef.node))
+                break
+            if not isinstance(got, _Nd):
+                res.fail(key, f"symbols.entity has no case for entity type {e!r} (restriction {restr!r}): the entity index silently becomes {got!r}", sym.line(ef.node))
+                break
     # psi table name suffix map
     et = repo.mod("ffcx.ir.elementtables")
     gn = et.func("generate_psi_table_name")
